@@ -6,7 +6,7 @@ collide with the basetype name; pattern_replacing with every selector class.
 Oracle: mc.ref.model.ref_extrapolate / ref_inject (written from the statement) + invariants checked independently.
 """
 from __future__ import annotations
-import itertools, json
+import itertools, json, os
 from mc.rec import Recorder
 
 ID = "C19"
@@ -213,6 +213,65 @@ def pattern_sets(table_names, templates):
     return out
 
 
+def loader_configs(tier):
+    """(table entries, to_extrapolate, key_patterns) for the configuration *loader* (extrapolate, then inject patterns):
+    selectors that tell an extrapolated type from its generated ancestors, and ones that only match generated types."""
+    out = []
+    n = 0
+    for entries, extr in gen_tables("quick"):
+        if not extr or len(entries) > 5:
+            continue
+        n += 1
+        table = dict(entries)
+        x = extr[0]
+        parts = table[x].split("/")
+        if len(parts) < 3:
+            continue
+        base = x.split(SEP)[0]
+        k_last, k_mid, k_first = parts[-1], parts[len(parts) // 2], parts[1]
+        pats = [
+            {x: {k_mid: "{" + key_of(k_mid.strip("{}")) + r":(x|\*)}"}},                                   # names exactly the extrapolated type
+            {base + SEP: {k_first: "{" + key_of(k_first.strip("{}")) + r":(y|\*)}"}},                      # all base__ types, not the bare base type
+            {base + SEP + key_of(k_mid.strip("{}")): {k_mid: "{" + key_of(k_mid.strip("{}")) + r":(z|\*)}"}},   # only a generated type
+            {"": {parts[0]: "{" + key_of(parts[0].strip("{}")) + r":(p|\*)}"}, x: {k_last: "{" + key_of(k_last.strip("{}")) + r":(l|\*)}"}},
+        ]
+        for kp in pats:
+            out.append((entries, [x], kp))
+            if len(extr) > 1:
+                out.append((entries, extr[:2], kp))
+    want = 480 if tier == "thorough" else 96
+    step = max(1, len(out) // want)
+    return out[::step][:want]
+
+
+def check_loader(case, workdir):
+    """Load the configuration in a fresh interpreter and compare spil.conf.sid_templates with the reference."""
+    import subprocess, shutil, sys
+    from mc.ref.model import ref_extrapolate, ref_inject
+    from mc import env
+    entries, to_x, kp = case
+    d = os.path.join(workdir, "loadconf")
+    shutil.rmtree(d, ignore_errors=True)
+    os.makedirs(d)
+    with open(os.path.join(d, "spil_sid_conf.py"), "w") as f:
+        f.write("sip = '/'\nprojects = []\nsid_templates = %r\nto_extrapolate = %r\nkey_patterns = %r\nkey_types = {}\nleaf_keys = {None: 'ext'}\n"
+                "extension_alias = {}\nbasetyped_search_narrowing = {}\ntyped_search_narrowing = {}\n" % (dict(entries), list(to_x), kp))
+    shutil.copy(os.path.join(os.environ["VERIF_WORKDIR"], "conf", "spil_data_conf.py"), d)
+    e = dict(os.environ, PYTHONPATH=os.pathsep.join([d, env.REPO]))
+    p = subprocess.run([sys.executable, "-c", "import json, spil.conf as c; print('TPL ' + json.dumps(list(c.sid_templates.items())))"],
+                       capture_output=True, text=True, env=e)
+    line = [l for l in p.stdout.splitlines() if l.startswith("TPL ")]
+    want = ref_inject(ref_extrapolate(dict(entries), list(to_x)), kp)
+    if p.returncode != 0 or not line:
+        return [dict(signature="loader/configuration-does-not-load", observed=(p.stderr or p.stdout)[-300:], expected=list(want.items()))]
+    got = json.loads(line[-1][4:])
+    if [list(x) for x in want.items()] != got:
+        extra = [g[0] for g in got if g[0] not in want]
+        sig = "loader/loaded-templates-differ-from-extrapolate-then-inject"
+        return [dict(signature=sig, observed=got, expected=[list(x) for x in want.items()], note="extra types: %s" % extra)]
+    return []
+
+
 def plan(tier, seed):
     return {"shards": [{"index": i, "count": 16} for i in range(16)]}
 
@@ -238,11 +297,24 @@ def run_shard(sh):
             rec.case(cls, cls != "nothing-to-add", sample={"table": entries, "extrapolate": to_x})
             for v in viols:
                 rec.violation(v["signature"], "table", case, v["observed"], v["expected"])
-    rec.extra = {"tables_generated": n_tables}
+    # the loader: extrapolation and pattern injection as spil.conf composes them, in a fresh interpreter per configuration
+    lc = loader_configs(sh["tier"])
+    n_loaded = 0
+    for i, case in enumerate(lc):
+        if i % sh["count"] != sh["index"]:
+            continue
+        n_loaded += 1
+        viols = check_loader(case, os.environ["VERIF_WORKDIR"])
+        rec.case("loaded-configuration", True, sample={"table": case[0], "extrapolate": case[1], "key_patterns": case[2]})
+        for v in viols:
+            rec.violation(v["signature"], "loader", [case[0], case[1], case[2]], v["observed"], v["expected"])
+    rec.extra = {"tables_generated": n_tables, "configurations_loaded": n_loaded}
     return rec.result()
 
 
 def replay_case(kind, case):
+    if kind == "loader":
+        return check_loader(case, os.environ["VERIF_WORKDIR"])
     return check_case(case)[0]
 
 
